@@ -58,6 +58,10 @@ def plan(tier, seed):
             items.append({"fam": "long", "L": L, "ops": ops, "seed": seed})
     for e in range(len(BUILTIN_EXPRS)):
         items.append({"fam": "builtin", "expr": e})
+    # ONE provider holding user-style (method based) FC evaluators for two format versions whose single constraints are judged
+    # differently; evaluations alternate between the versions
+    for e in range(len(ORDER_EXPRS)):
+        items.append({"fam": "versions", "expr": e})
     for n in BOUNDS[tier]:
         parts = {1: 1, 2: 1, 3: 4, 4: 32, 5: 512}[n]
         for p in range(parts):
@@ -238,6 +242,31 @@ def check_expr_mode(expr, mode, only=None, no_messages=None):
     return out, n
 
 
+def check_versions(expr, val0, val1):
+    """format_constraint_evaluation of `expr` alternating between two format versions behind one token logic provider"""
+    from mc import impl_modes as M
+
+    I = X.init()
+    tt = X.parse(expr)[2]
+    seq = (0, 1, 0, 1)
+    fcs = [{k: (v, None if v else f"msg v{i} {k}") for k, v in val.items()} for i, val in enumerate((val0, val1))]
+    res = M.run_versions(lambda: I.format_constraint_evaluation(expr), [{}, {}], seq, fc_by_version=fcs)
+    out = []
+    for i, (v, r) in enumerate(zip(seq, res)):
+        exp = _bool(tt, (val0, val1)[v])
+        case = {"expr": expr, "versions": [val0, val1], "step": i}
+        if r[0] == "exc":
+            out.append({"kind": "raised/two-versions", "case": case, "expected": exp, "observed": r[1], "msg": expr})
+            break
+        if r[1].format_constraints_fulfilled is not exp or (r[1].error_message is not None) != (not exp) or \
+                (r[1].error_message is not None and f"v{1 - v} " in r[1].error_message):
+            out.append({"kind": "boolean-value/two-versions", "case": case, "expected": [exp, "message" if not exp else None],
+                        "observed": [r[1].format_constraints_fulfilled, r[1].error_message],
+                        "msg": f"{expr}: evaluation {i + 1} of the sequence {list(seq)} carries format version {v} whose evaluator judges {(val0, val1)[v]}"})
+            break
+    return out
+
+
 async def _no_yield(kind, key):
     return None
 
@@ -273,6 +302,28 @@ def run_item(item):
                 for v in vs:
                     r.violation(v["kind"], v["case"], v["expected"], v["observed"], v["msg"])
         r.sample({"expr": expr, "texts": len(BUILTIN_TEXTS)})
+        return r
+    if item["fam"] == "versions":
+        from mc import impl_modes as M
+
+        expr = ORDER_EXPRS[item["expr"]]
+        keys = R3.keys_of(X.parse(expr)[2])
+        try:
+            for v0 in itertools.product((True, False), repeat=len(keys)):
+                for v1 in itertools.product((True, False), repeat=len(keys)):
+                    if v0 == v1:
+                        continue
+                    for v in check_versions(expr, dict(zip(keys, v0)), dict(zip(keys, v1))):
+                        r.violation(v["kind"], v["case"], v["expected"], v["observed"], v["msg"])
+                    r.evaluations += 4
+                    r.states += 4
+                    r.transitions += 4
+                    r.nontrivial += 4
+                    r.stat("two_version_sequences")
+            r.traces += 1
+        finally:
+            M.restore()
+        r.sample({"expr": expr, "versions": 2})
         return r
     if item["fam"] == "long":
         for expr, vals in long_cases(item["L"], item["ops"], item["seed"]):
@@ -397,6 +448,14 @@ def _run_orders(item, r):
 
 
 def replay(case):
+    if case.get("versions"):
+        from mc import impl_modes as M
+
+        X.init()
+        try:
+            return check_versions(case["expr"], case["versions"][0], case["versions"][1])
+        finally:
+            M.restore()
     if "orders" in case:
         vloop, factory, observe, want, expr, val = _orders_setup(case["orders"])
         out = observe(vloop.run_schedule(factory, case["choices"]))
